@@ -37,6 +37,7 @@ func runC05(p *Prog, r *Report) {
 	ignoreEveryFieldRule(p, r, "C05.R11")
 	typeStringOpaqueRule(p, r, "C05.R12")
 	fieldSettingTargetRule(p, r, "C05.R13")
+	lookupContextRule(p, r, "C05.R14")
 	armStoresRule(p, r, "C05.R7", "config.parseMethodLine", "map", "ignore", "autoMap")
 }
 
